@@ -40,7 +40,7 @@ class Tables:
         if isinstance(e, (ast.List, ast.Tuple)):
             t = [self.ev(x) for x in e.elts]
             return t if isinstance(e, ast.List) else tuple(t)
-        if isinstance(e, ast.Dict):
+        if isinstance(e, ast.Dict) and all(k is not None for k in e.keys):
             return {self._h(self.ev(k)): self.ev(v) for k, v in zip(e.keys, e.values)}
         ch = attr_chain(e)
         if ch and len(ch) == 2 and ch[0] in self.p.enums:
@@ -58,7 +58,55 @@ class Tables:
             if isinstance(out, (list, tuple)):
                 return out
             raise AnalysisError(f"table entry `{short(e)}`: the builder does not return a table ({out!r})")
+        # anything else a table is written with (comprehensions over literal rows, `**` merges, small module-level builders): evaluated
+        iv = IntEval.__new__(IntEval)
+        iv.p, iv.t, iv.cof = self.p, self, []
+        try:
+            out = iv.ev(e, _ModuleEnv(self))
+        except IntEval._Return as r_:
+            out = r_.v
+        if isinstance(out, tuple) and out and isinstance(out[0], str) and out[0].endswith("-ERROR"):
+            raise AnalysisError(f"table entry `{short(e)}` is not a literal and does not evaluate ({out})")
+        out = self._from_iv(out)
+        if isinstance(out, dict):
+            return {self._h(k): v for k, v in out.items()}
+        if isinstance(out, (list, tuple)):
+            return out
         raise AnalysisError(f"table entry `{short(e)}` is not a literal")
+
+    def _to_iv(self, x):
+        """literal-table value -> evaluator value (a Note is its pitch class there)"""
+        if isinstance(x, tuple) and len(x) == 2 and x[0] == "Note" and isinstance(x[1], str):
+            return ("Note", self.note[x[1]])
+        if isinstance(x, list):
+            return [self._to_iv(y) for y in x]
+        if isinstance(x, tuple):
+            return tuple(self._to_iv(y) for y in x)
+        if isinstance(x, dict):
+            return {self._to_iv(k): self._to_iv(v) for k, v in x.items()}
+        return x
+
+    def _from_iv(self, x):
+        if isinstance(x, tuple) and len(x) == 2 and x[0] == "Note" and isinstance(x[1], int) and not isinstance(x[1], bool):
+            names = [n for n, v in self.note.items() if v == x[1]]
+            return ("Note", names[0]) if names else x
+        if isinstance(x, list):
+            return [self._from_iv(y) for y in x]
+        if isinstance(x, tuple):
+            return tuple(self._from_iv(y) for y in x)
+        if isinstance(x, dict):
+            return {self._h(self._from_iv(k)): self._from_iv(v) for k, v in x.items()}
+        return x
+
+    def module_constant(self, name: str):
+        """value (evaluator form) of a module-level constant of the tables' module, or KeyError"""
+        mi = self.p.modules.get(self.file)
+        for st in (mi.tree.body if mi is not None else []):
+            if isinstance(st, ast.Assign) and len(st.targets) == 1 and isinstance(st.targets[0], ast.Name) and st.targets[0].id == name:
+                return self._to_iv(self.ev(st.value))
+            if isinstance(st, ast.AnnAssign) and st.value is not None and isinstance(st.target, ast.Name) and st.target.id == name:
+                return self._to_iv(self.ev(st.value))
+        raise KeyError(name)
 
     @staticmethod
     def _h(x):
@@ -68,6 +116,40 @@ class Tables:
         if name not in self._cache:
             self._cache[name] = self.ev(self.nodes[name])
         return self._cache[name]
+
+
+class _ChildEnv(dict):
+    """a comprehension's scope inside a table expression: its own bindings over the module constants"""
+    def __init__(self, parent):
+        super().__init__()
+        self._p = parent
+
+    def __contains__(self, k):
+        return dict.__contains__(self, k) or k in self._p
+
+    def __missing__(self, k):
+        return self._p[k]
+
+
+class _ModuleEnv(dict):
+    """environment of a table expression: module-level constants of the tables' module, evaluated on demand"""
+    def __init__(self, tables):
+        super().__init__()
+        self._t = tables
+
+    def __contains__(self, k):
+        if dict.__contains__(self, k):
+            return True
+        try:
+            self[k] = self._t.module_constant(k)
+            return True
+        except KeyError:
+            return False
+
+    def __missing__(self, k):
+        v = self._t.module_constant(k)
+        self[k] = v
+        return v
 
 
 def check_tables(ctx: Ctx, rules=("NOTE", "SCALE", "ORDER", "MAP", "COF", "KKM")) -> Tables:
@@ -402,6 +484,12 @@ class IntEval:
                     return self.p.settings[e.id]
                 if e.id == "circle_of_fifths_order" and env.get("__class_body__"):
                     return [("Note", v) for v in self.cof]
+                if e.id in self.p.enums:
+                    return ("ENUM-CLASS", e.id)
+                try:
+                    return self.t.module_constant(e.id)      # a module-level constant of the tables' module
+                except (KeyError, AnalysisError, AttributeError):
+                    pass
                 return ("NAME-ERROR", e.id)     # the program itself would raise NameError / UnboundLocalError here
             return env[e.id]
         if isinstance(e, ast.List):
@@ -410,6 +498,47 @@ class IntEval:
             return tuple(self.ev(x, env) for x in e.elts)
         if isinstance(e, ast.Dict) and all(k is not None for k in e.keys):
             return {self.ev(k, env): self.ev(v, env) for k, v in zip(e.keys, e.values)}
+        if isinstance(e, ast.Dict):
+            out = {}
+            for k, v in zip(e.keys, e.values):
+                if k is None:                               # `**other`
+                    part = self.ev(v, env)
+                    if not isinstance(part, dict):
+                        return ("TYPE-ERROR", src(e))
+                    out.update(part)
+                else:
+                    out[self.ev(k, env)] = self.ev(v, env)
+            return out
+        if isinstance(e, (ast.ListComp, ast.DictComp)) and len(e.generators) == 1 and (
+                isinstance(e, ast.DictComp) or isinstance(e.generators[0].target, ast.Tuple)):
+            g = e.generators[0]
+            it = self.ev(g.iter, env)
+            if isinstance(it, tuple) and len(it) == 2 and it[0] == "ENUM-CLASS":
+                it = [("Note", v) if it[1] == "Note" else (it[1], n_) for n_, v in self.p.enums[it[1]]]
+            if isinstance(it, dict):
+                it = list(it)
+            if not isinstance(it, (list, tuple, range)):
+                raise AnalysisError(f"value-set evaluator: comprehension over `{short(g.iter)}`")
+            names = [g.target.id] if isinstance(g.target, ast.Name) else ([x.id for x in g.target.elts] if isinstance(g.target, ast.Tuple)
+                                                                          and all(isinstance(x, ast.Name) for x in g.target.elts) else None)
+            if names is None:
+                raise AnalysisError(f"value-set evaluator: comprehension target `{short(g.target)}`")
+            out_l, out_d = [], {}
+            for v in list(it)[:4096]:
+                env2 = dict(env) if not isinstance(env, _ModuleEnv) else _ChildEnv(env)
+                if isinstance(g.target, ast.Name):
+                    env2[names[0]] = v
+                else:
+                    if not isinstance(v, (list, tuple)) or len(v) != len(names):
+                        return ("VALUE-ERROR", "unpack")
+                    for nm_, x in zip(names, v):
+                        env2[nm_] = x
+                if all(self.ev(c, env2) for c in g.ifs):
+                    if isinstance(e, ast.DictComp):
+                        out_d[self.ev(e.key, env2)] = self.ev(e.value, env2)
+                    else:
+                        out_l.append(self.ev(e.elt, env2))
+            return out_d if isinstance(e, ast.DictComp) else out_l
         if isinstance(e, ast.Call) and isinstance(e.func, ast.Name) and e.func.id == "dict" and not e.args and not e.keywords:
             return {}
         if isinstance(e, ast.Call) and isinstance(e.func, ast.Name) and e.func.id == "zip" and not e.keywords:
@@ -420,11 +549,13 @@ class IntEval:
         if isinstance(e, ast.ListComp) and len(e.generators) == 1 and isinstance(e.generators[0].target, ast.Name):
             g = e.generators[0]
             it = self.ev(g.iter, env)
+            if isinstance(it, tuple) and len(it) == 2 and it[0] == "ENUM-CLASS":
+                it = [("Note", v) if it[1] == "Note" else (it[1], n_) for n_, v in self.p.enums[it[1]]]
             if not isinstance(it, (list, tuple, range)):
                 raise AnalysisError(f"value-set evaluator: comprehension over `{short(g.iter)}`")
             out = []
             for v in list(it)[:4096]:
-                env2 = dict(env)
+                env2 = dict(env) if not isinstance(env, _ModuleEnv) else _ChildEnv(env)
                 env2[g.target.id] = v
                 if all(self.ev(c, env2) for c in g.ifs):
                     out.append(self.ev(e.elt, env2))
@@ -563,6 +694,8 @@ class IntEval:
                 return ("Note", v)
             if ch and ch[0] == "CircleOfFifths" and len(ch) == 2 and f"CircleOfFifths.{ch[1]}" in self.p.functions:
                 return self.call(f"CircleOfFifths.{ch[1]}", [self.ev(a, env) for a in e.args])
+            if ch and len(ch) == 1 and ch[0] in self.p.module_funcs and not e.keywords:
+                return self.call(ch[0], [self.ev(a, env) for a in e.args])
             raise AnalysisError(f"value-set evaluator: unsupported call `{short(e)}`")
         if isinstance(e, ast.Subscript) and not isinstance(e.slice, ast.Slice):
             base = self.ev(e.value, env)
